@@ -1,6 +1,6 @@
 (* C11 — selection and sampling primitives honour their contracts.
    Statements only; proofs are in theories/RandomPrimsProofs{,2}.v. *)
-From TF Require Import Base RandomPrims RandomPrimsProofs RandomPrimsProofs2.
+From TF Require Import Base RandomPrims RandomPrimsProofs RandomPrimsProofs2 SattoloCycle.
 From Coq Require Import Permutation.
 Open Scope Q_scope.
 
@@ -70,11 +70,32 @@ Theorem C11_randint_range : forall low high, (low < high)%Z -> forall size ds r 
 Proof. exact randint_range. Qed.
 Print Assumptions C11_randint_range.
 
-(* Sattolo: the output is a permutation of the input (cyclicity: see C11_sattolo_cyclic_* ) *)
+(* Sattolo: the output is a permutation of the input *)
 Theorem C11_sattolo_permutation : forall (arr : list Z) ds r ds',
   valid_draws ds -> sattolo 0%Z arr ds = Some (r, ds') -> Permutation arr r.
 Proof. exact (sattolo_perm 0%Z). Qed.
 Print Assumptions C11_sattolo_permutation.
+
+(* ... and that permutation is CYCLIC: the output is the input read through a map on positions that
+   is one cycle through all n positions — for every length and every outcome of the draws *)
+Theorem C11_sattolo_cyclic : forall (arr : list Z) ds r ds',
+  valid_draws ds -> arr <> [] -> sattolo 0%Z arr ds = Some (r, ds') ->
+  exists pi, cyclic_on (length arr - 1) pi /\ length r = length arr /\
+    forall p, (p < length arr)%nat -> nth p r 0%Z = nth (pi p) arr 0%Z.
+Proof. exact (sattolo_cyclic 0%Z). Qed.
+Print Assumptions C11_sattolo_cyclic.
+
+Theorem C11_cyclic_on_meaning : forall m pi, cyclic_on m pi <->
+  (forall p, (p <= m)%nat -> (pi p <= m)%nat) /\ (forall p, (m < p)%nat -> pi p = p) /\
+  (forall a b, (a <= m)%nat -> (b <= m)%nat -> exists k, iter pi k a = b).
+Proof. intros. reflexivity. Qed.
+Print Assumptions C11_cyclic_on_meaning.
+
+Theorem C11_sattolo_no_fixed_point : forall (arr : list Z) ds r ds' p,
+  valid_draws ds -> NoDup arr -> (2 <= length arr)%nat -> (p < length arr)%nat ->
+  sattolo 0%Z arr ds = Some (r, ds') -> nth p r 0%Z <> nth p arr 0%Z.
+Proof. exact (sattolo_no_fixed_point 0%Z). Qed.
+Print Assumptions C11_sattolo_no_fixed_point.
 
 (* p-best: argsort_k puts, in its first k slots, indices whose values dominate all later ones;
    find_pbest_id returns exactly max(1, floor(p n)) distinct indices, each at least as fit as
